@@ -24,6 +24,7 @@ def rmwt(d):
     shutil.rmtree(d, ignore_errors=True)
 
 def confirm(sd):
+    sd = os.path.abspath(sd)
     patch = os.path.join(sd, 'patch.diff'); demo = os.path.join(sd, 'demo.sh')
     res = {}
     clean = mkwt(); bad = mkwt(patch)
